@@ -131,7 +131,18 @@ def r1_plumbing(ctx, rep):
     g = py.func("sourceform.get_mod_procs")
     ctor = [c for c in py.walk_calls(g) if call_name(c) == "FortranModuleProcedureReference"]
     init = py.func("FortranModuleProcedureReference.__init__")
-    ok = bool(ctor) and ast.unparse(astq.bind_args(ctor[0], init, skip_self=True).get("inherited_permission", ast.Constant(value=None))).endswith(".permission")
+    ok = False
+    if ctor:
+        arg = astq.bind_args(ctor[0], init, skip_self=True).get("inherited_permission", ast.Constant(value=None))
+        alts = [arg] + astq.expand_locals(arg, g)
+        from_parent = any(ast.unparse(a).endswith(".permission") for a in alts)
+        # an optional parameter that overrides it is fine as long as no caller uses it
+        params = {a.arg for a in g.args.args + g.args.kwonlyargs}
+        callers = [c for _m, f2 in py.all_functions() for c in py.walk_calls(f2) if call_name(c).split(".")[-1] == g.name]
+        others = [a for a in alts if not ast.unparse(a).endswith(".permission")]
+        unused_override = all(isinstance(a, ast.Name) and a.id in params and not any(
+            astq.bind_args(c, g).get(a.id) is not None for c in callers) for a in others)
+        ok = from_parent and unused_override
     rep.ob("get_mod_procs passes parent.permission", ok, "", py.nloc(g))
     # initial child default
     pre = cs.fn.body[:cs.fn.body.index(cs.loop)]
@@ -377,6 +388,101 @@ def r6_memo(ctx, rep):
         rep.ob("no cache on the declaration path", True, "nothing to check", "ford/sourceform.py", nontrivial=False)
 
 
+_REWRITERS = {"join", "replace", "sub", "translate", "upper", "title", "capitalize", "swapcase", "removeprefix", "removesuffix",
+              "format", "expandtabs", "center", "ljust", "rjust", "zfill"}
+
+
+def r7_names_and_given_permission(ctx, rep):
+    """(a) An access statement reaches its entity through a table keyed by the *text of the statement* (stripped, lower-cased)
+    and looked up with `entity.name.lower()`.  Both sides have to spell the name alike: a constructor that rewrites the name it
+    stores (blanks removed, characters replaced) without the same rewriting on the key side makes `public :: operator (+)`
+    miss `interface operator (+)`.  (b) A constructor that receives the accessibility as a parameter stores what it was given -
+    the default of the enclosing scope arrives that way - and does not replace it by a constant."""
+    py = ctx.py
+    init = py.ifunc("FortranContainer.__init__")
+    key_side: Set[str] = set()
+    nkeys = 0
+    for st in ast.walk(init):
+        for sub in ast.walk(st) if isinstance(st, (ast.Assign, ast.AugAssign, ast.Expr)) else []:
+            if isinstance(sub, ast.Subscript) and isinstance(sub.value, ast.Attribute) and sub.value.attr == "attr_dict":
+                nkeys += 1
+                for e in [sub.slice] + astq.expand_locals(sub.slice, init, depth=4):
+                    key_side |= {c.func.attr for c in ast.walk(e) if isinstance(c, ast.Call) and isinstance(c.func, ast.Attribute)}
+    if nkeys < 2:
+        raise AnalysisError("FortranContainer.__init__: stores into attr_dict not found")
+    n = 0
+    for cname, ci in sorted(py.classes.items()):
+        if ci.module != "sourceform" or not (py.is_subclass(cname, "FortranBase")):
+            continue
+        for mname, fn in ci.methods.items():
+            for st in ast.walk(fn):
+                if isinstance(st, ast.Assign) and any(ast.unparse(t) == "self.name" for t in st.targets):
+                    n += 1
+                    used: Set[str] = set()
+                    for e in [st.value] + astq.expand_locals(st.value, fn, depth=3):
+                        used |= {c.func.attr for c in ast.walk(e) if isinstance(c, ast.Call) and isinstance(c.func, ast.Attribute)}
+                    extra = sorted((used & _REWRITERS) - key_side)
+                    rep.ob(f"{cname}.{mname}: the stored name is spelled like the access-statement key ({ast.unparse(st.value)[:30]})",
+                           not extra, "the name is kept as written" if not extra else
+                           f"`{ast.unparse(st)[:80]}` rewrites the name with {extra}, the table of access statements is keyed by the "
+                           f"statement text ({sorted(key_side & (_REWRITERS | {'strip', 'lower'}))} only): `public :: operator (+)` no "
+                           f"longer reaches `interface operator (+)`", py.nloc(st), nontrivial=bool(used))
+    if n < 15:
+        raise AnalysisError(f"only {n} assignments to self.name found")
+    # (c) a generic spec may be written with or without a blank before its parenthesis (`operator (+)` / `operator(+)`); the
+    # statement text and the entity name are two independent spellings, so both sides have to drop the blanks
+    def drops_blanks(fn_, exprs) -> bool:
+        for e in exprs:
+            for x in [e] + astq.expand_locals(e, fn_, depth=4):
+                for c in ast.walk(x):
+                    if isinstance(c, ast.Call) and isinstance(c.func, ast.Attribute):
+                        if c.func.attr == "join" and isinstance(c.func.value, ast.Constant) and c.func.value.value == "" and \
+                                any(isinstance(k, ast.Call) and isinstance(k.func, ast.Attribute) and k.func.attr == "split" for k in ast.walk(c)):
+                            return True
+                        if c.func.attr == "replace" and len(c.args) == 2 and [ast.unparse(a) for a in c.args] == ["' '", "''"]:
+                            return True
+                    if isinstance(c, ast.Call) and call_name(c) in ("re.sub",) and c.args and isinstance(c.args[0], ast.Constant) and \
+                            "\\s" in str(c.args[0].value):
+                        return True
+        return False
+    key_exprs = [sub.slice for st in ast.walk(init) for sub in ast.walk(st) if isinstance(sub, ast.Subscript)
+                 and isinstance(sub.value, ast.Attribute) and sub.value.attr == "attr_dict" and isinstance(sub.ctx, ast.Store) is False]
+    key_ok = drops_blanks(init, key_exprs)
+    pa = py.func("FortranCodeUnit.process_attribs")
+    look = [sub.slice for sub in ast.walk(pa) if isinstance(sub, ast.Subscript) and isinstance(sub.value, ast.Attribute)
+            and sub.value.attr == "attr_dict"]
+    look_ok = drops_blanks(pa, look)
+    rep.ob("access statements reach `operator (+)` however the blank is written", key_ok and look_ok,
+           "both the statement text and the entity name are compared without blanks" if key_ok and look_ok else
+           f"statement side drops blanks: {key_ok}, lookup side drops blanks: {look_ok} - `public :: operator (+)` does not reach "
+           f"`interface operator(+)` (and vice versa): the interface keeps the default accessibility of the module",
+           py.nloc(pa))
+    m = 0
+    for cname, ci in sorted(py.classes.items()):
+        if ci.module != "sourceform":
+            continue
+        for mname, fn in ci.methods.items():
+            params = [a.arg for a in fn.args.args + fn.args.kwonlyargs]
+            if "permission" not in params:
+                continue
+            stores = [st for st in ast.walk(fn) if isinstance(st, ast.Assign) and any(ast.unparse(t) == "self.permission" for t in st.targets)]
+            if not stores:
+                continue
+            m += 1
+            rebinds = [st for st in ast.walk(fn) if isinstance(st, ast.Assign) and any(isinstance(t, ast.Name) and t.id == "permission"
+                                                                                    for t in st.targets)
+                       and not any(isinstance(x, ast.Name) and x.id == "permission" for x in ast.walk(st.value))]
+            from_param = all(any(isinstance(x, ast.Name) and x.id == "permission" for x in ast.walk(st.value)) for st in stores)
+            ok = from_param and not rebinds
+            rep.ob(f"{cname}.{mname}: the accessibility passed in is the one stored", ok,
+                   "self.permission = permission" if ok else
+                   f"`{ast.unparse((rebinds or stores)[0])[:70]}` replaces the accessibility the caller determined (declared attribute, "
+                   f"else the default of the enclosing scope) by a constant: entities of a default-private scope come out public",
+                   py.nloc((rebinds or stores)[0]))
+    if m < 1:
+        raise AnalysisError("no constructor with a `permission` parameter found")
+
+
 RULES = [
     RuleSpec("C04.R1", r1_plumbing, "permission plumbing table", floor=12),
     RuleSpec("C04.R2", r2_declaration_attributes, "declaration access attributes", floor=3),
@@ -384,4 +490,5 @@ RULES = [
     RuleSpec("C04.R4", r4_order_sensitivity, "scope default not read before the specification part is complete", floor=1),
     RuleSpec("C04.R5", r5_interface_and_constructor, "interface procedures and constructors", floor=2),
     RuleSpec("C04.R6", r6_memo, "caches on the declaration path are keyed by everything the cached value depends on", floor=1),
+    RuleSpec("C04.R7", r7_names_and_given_permission, "names are spelled like their access-statement keys; a given accessibility is stored", floor=15),
 ]
